@@ -263,6 +263,9 @@ def bgp_classes():
             for present in (nhl, max(0, nhl - 1)):
                 v = B(be(fam >> 16, 2) + [fam & 0xff, nhl] + fill(present) + [0]) + nl
                 add('mp_reach_nexthop_lengths', v6, [E.update([], BASE_ATTRS()[:2] + [E.attr(0x80, 14, v)], []).d])
+            # value ends right after the next hop (no reserved octet), and right after the reserved octet (no NLRI)
+            add('mp_reach_ends_after_nexthop', v6, [E.update([], BASE_ATTRS()[:2] + [E.attr(0x80, 14, B(be(fam >> 16, 2) + [fam & 0xff, nhl] + fill(nhl)))], []).d])
+            add('mp_reach_ends_after_nexthop', v6, [E.update([], BASE_ATTRS()[:2] + [E.attr(0x80, 14, B(be(fam >> 16, 2) + [fam & 0xff, nhl] + fill(nhl) + [0]))], []).d])
     for ll in ([0] * 16, [0] * 15 + [1], [0xfe, 0x80] + [0] * 14):
         add('mp_reach_link_local_forms', v6, [E.update([], BASE_ATTRS()[:2] + [E.attr(0x80, 14, E.mp_reach_value(E.IPV6, fill(16) + ll, [E.prefix(8, [0x20])]))], []).d])
     for rsv in (0, 1, 255):
